@@ -11,7 +11,7 @@ import random
 import model
 
 DEPTHS = [-1, 0, 1, 2, 3, 10, 10, 10]
-DELIMS = [b" ", b"\n", b"\t", b";", b"(", b")", b"\0", b", ", b"\r\n", b"|", b"'", b'"', b"=", b"  "]
+DELIMS = [b" ", b"\n", b"\t", b";", b"(", b")", b"\0", b", ", b"\r\n", b"|", b"'", b'"', b"=", b"  ", b"", b"\\", b"/"]
 
 BASE_WORDS = [
     b"alpha", b"Beta", b"gamma7", b"delta_x", b"Open Process", b"x-y.z", b"m\xc3\xbcnchen", b"\xff\xfeword",
@@ -189,7 +189,18 @@ def snippet(rng, words, depth=0):
     p = payload(rng, words)
     if depth < 2 and rng.random() < 0.3:
         p = snippet(rng, words, depth + 1)
-    k = rng.randrange(16)
+    k = rng.randrange(20)
+    if k == 16:
+        key = rng.choice([7, 35, 77, 128, 255])
+        return b'[System.Convert]::FromBase64String("' + base64.b64encode(bytes(c ^ key for c in p)) + b'") -bxor ' + str(key).encode()
+    if k == 17:
+        key = rng.choice([13, 66, 99])
+        return b'FromHexString("' + binascii.hexlify(bytes(c ^ key for c in p)) + b'") -xor ' + str(key).encode()
+    if k == 18:
+        return mini_pe(p)
+    if k == 19:
+        # an encoded blob that starts inside an unchanged indicator and runs past its end
+        return rng.choice([b"C:\\Users\\bob\\", b"see evil.example.com/", b"\\\\server\\share\\"]) + base64.b64encode(p + b" padding to make it long enough")
     if k == 0:
         return base64.b64encode(p)
     if k == 1:
@@ -229,6 +240,31 @@ def snippet(rng, words, depth=0):
     return base64.b64encode(base64.b64encode(p))
 
 
+def mini_pe(body):
+    """A minimal well-formed PE32 image (one .text section holding `body`)."""
+    import struct
+
+    dos = bytearray(64)
+    dos[0:2] = b"MZ"
+    struct.pack_into("<I", dos, 0x3C, 0x40)
+    coff = struct.pack("<HHIIIHH", 0x14C, 1, 0, 0, 0, 0xE0, 0x0102)
+    opt = bytearray(0xE0)
+    struct.pack_into("<H", opt, 0, 0x10B)
+    struct.pack_into("<I", opt, 16, 0x1000)
+    struct.pack_into("<I", opt, 28, 0x400000)
+    struct.pack_into("<I", opt, 32, 0x1000)
+    struct.pack_into("<I", opt, 36, 0x200)
+    struct.pack_into("<H", opt, 40, 4)
+    struct.pack_into("<H", opt, 48, 4)
+    struct.pack_into("<I", opt, 56, 0x2000)
+    struct.pack_into("<I", opt, 60, 0x200)
+    struct.pack_into("<H", opt, 68, 3)
+    struct.pack_into("<I", opt, 92, 16)
+    sec = struct.pack("<8sIIIIIIHHI", b".text", 0x200, 0x1000, 0x200, 0x200, 0, 0, 0, 0, 0x60000020)
+    hdr = (bytes(dos) + b"PE\0\0" + coff + bytes(opt) + sec).ljust(0x200, b"\0")
+    return hdr + body[:0x200].ljust(0x200, b"\0")
+
+
 def twins(rng, words):
     """The same encoded payload under two different wrappers (so the same
     decoded content appears twice, below different ancestors)."""
@@ -260,9 +296,10 @@ def gen_input(rng, words, hot, max_len=2048, exotic=False, bulk=False, sizes=Non
                 parts.append(bytes(rng.randrange(32, 127) for _ in range(rng.randint(0, 20))))
     out = bytearray()
     for p in parts:
-        if out:
-            out += rng.choice(DELIMS)
-        out += p
+        d = rng.choice(DELIMS) if out else b""
+        if out and len(out) + len(d) + len(p) > max_len:
+            continue  # whole parts only: a part cut in the middle (half a PE image) is another kind of input
+        out += d + p
     if exotic:
         r = rng.random()
         if r < 0.06:
@@ -271,7 +308,8 @@ def gen_input(rng, words, hot, max_len=2048, exotic=False, bulk=False, sizes=Non
             out += b"\x00\x00\xff\xfe\xc3\x28"
         if r < 0.18:
             out = bytearray(b"\xef\xbb\xbf") + out
-    out = out[:max_len]
+    if len(out) > max(max_len, 3072):
+        out = out[:max_len]
     if bulk and out:
         # a large buffer: the same material repeated between filler lines (size thresholds,
         # block-wise readers, "only for big inputs" fast paths)
@@ -362,6 +400,17 @@ def same_length_sibling(rng, data, words):
     """An input of exactly the same length whose keyword content differs: one
     word that occurs in data is replaced by another word of the same length (or
     by a non-word).  Fixed-width records look like this."""
+    import re as _re
+
+    m = _re.search(rb"-b?xor (\d{1,3})", data)
+    if m and rng.random() < 0.7:
+        # same record layout, another key (or none: the operator is misspelt)
+        old = m.group(1)
+        new = {1: b"9", 2: b"42", 3: b"101"}[len(old)]
+        if new == old:
+            new = bytes(reversed(old)) if bytes(reversed(old)) != old else b"7" * len(old)
+        out = data[: m.start(1)] + new + data[m.end(1) :] if rng.random() < 0.6 else data.replace(b"xor ", b"xar ", 1)
+        return out if len(out) == len(data) and out != data else None
     present = [w for w in sorted(set(words)) if w and w in data]
     if not present:
         return None
